@@ -5,6 +5,7 @@ import GrinVerif.Model.KvResize
 import GrinVerif.Model.TxCount
 import GrinVerif.Model.KvGate
 import GrinVerif.Model.ChainStore
+import GrinVerif.Model.KvMigrate
 /-! Driver glue for the `kv` domain (property C18): folds the model `GV.Kv.St` over the op lines
 of `harness/src/bin/kv.rs` and recomputes every answer.
 
@@ -71,6 +72,8 @@ structure St where
   gtab : List (Bytes × String) := []
   /-- resize protocol state of run `selfiter` -/
   rz : Kv.REnv := { mapSize := 0, chunk := 1 }
+  /-- run `migrate`: records of the old environment directory (`none` = no such directory) -/
+  old : Option (List (Bytes × Val)) := none
 
 def parseDb (s : String) : Option Nat :=
   if s = "def" then some 0 else (nat? s).map (· + 1)
@@ -300,6 +303,43 @@ def handle (st : St) (args : List String) (impl : String) : St × Verdict :=
   | ["space", m, lp, need, c] => match nat? m, nat? lp, nat? need, nat? c with
     | some m, some lp, some need, some c =>
       if spaceOk m lp need c then (st, cmpSpec "ok" impl) else (st, .ok)
+    | _, _, _, _ => (st, .unknown)
+  -- run `migrate` (Model/KvMigrate.lean): the one-time migration inside `Store::new`
+  | ["mig_old", recs] =>
+    let inner := ((recs.drop 1).dropEnd 1).toString
+    let items := if inner = "" then [] else inner.splitOn ","
+    let parsed := items.mapM fun it => match it.splitOn "=" with
+      | [k, v] => match parseHex k, parseVal v with
+        | some k, some v => some (k, v)
+        | _, _ => none
+      | _ => none
+    match parsed with
+    | some l => ({ st with old := some l }, .ok)
+    | none => (st, .unknown)
+  | ["mig_run"] =>
+    let prefixes := (st.dbs.filter (· > 0)).map (· - 1)
+    let (e, ok) := Kv.storeNew prefixes { tbl := st.m.committed, old := st.old }
+    ({ st with m := { committed := e.tbl, stack := [] }, old := e.old }, cmpSpec (if ok then "ok" else "err") impl)
+  | ["mig_crash", pt] =>
+    let prefixes := (st.dbs.filter (· > 0)).map (· - 1)
+    let c? : Option Kv.CrashAt := match pt with
+      | "afterClear" => some .afterClear
+      | "afterCommit" => some .afterCommit
+      | "afterDelete" => some .afterDelete
+      | _ => none
+    match c? with
+    | some c =>
+      let e := Kv.storeNewCrash prefixes { tbl := st.m.committed, old := st.old } c
+      ({ st with m := { committed := e.tbl, stack := [] }, old := e.old }, .ok)
+    | none => (st, .unknown)
+  | ["mig_olddir"] => (st, cmpSpec (if st.old.isSome then "present" else "gone") impl)
+  | ["mig_size", tu, fu, c, mb] => match nat? tu, nat? fu, nat? c, nat? mb with
+    | some tu, some fu, some c, some mb =>
+      -- `to_used` is read by the harness before `Store::new` re-creates the databases and clears them:
+      -- a few pages of slack; compared only when the slack cannot change the answer
+      let lo := Kv.migrationMapSize tu fu c mb
+      let hi := Kv.migrationMapSize (tu + 65536) fu c mb
+      if lo = hi then (st, cmpModel (toString lo) impl) else (st, .ok)
     | _, _, _, _ => (st, .unknown)
   | ["new", dbs] =>
     let inner := ((dbs.drop 1).dropEnd 1).toString
